@@ -45,6 +45,7 @@ PVALS = {"int": [2 ** 63 - 1, -2 ** 63, 5], "float": [1.5, -0.25, 1.797693134862
 FORESTS = [[("s", [])], [("s", [("s", [])])], [("s", []), ("Z", [])], [("s", [("a", []), ("s", [])])]]
 EXTRAS = ["none", "uncertainty-uniform", "uncertainty-per-value", "uncertainty-tiny", "reference", "file-encoder-checksum", "mixed"]
 TINY = [2e-11, 5e-11, 1e-11, 3e-11]
+U64VALS = [2 ** 63 + 5, 7, 2 ** 64 - 1]
 MIXED = ["reference", "none", "file-encoder-checksum", "uncertainty-per-value", "none"]
 
 
@@ -150,6 +151,11 @@ def build(path, cfg):
                     p.definition = "def of " + pname
                 snap["props"][prefix + "/" + name + "/" + pname] = {"values": list(vals), "unit": "mV" if i % 2 == 0 else None,
                                                                   "definition": "def of " + pname if i % 2 == 0 else None, "type": t}
+            if cfg.get("many"):
+                # an unsigned 64-bit property whose values do not fit into int64 (the library cannot write such values
+                # itself: the old dataset is crafted in to_old)
+                sec.create_property("p9uint", nix.DataType.UInt64)
+                snap["props"][prefix + "/" + name + "/p9uint"] = {"values": list(U64VALS), "unit": None, "definition": None, "type": "uint"}
             counter[0] += 1
             mk(sec, sub, prefix + "/" + name)
     mk(f, FORESTS[cfg["forest"]], "")
@@ -202,8 +208,10 @@ def to_old(path, cfg):
             for name in props:
                 ds = h["metadata"][name]
                 vals = ds[()]
+                if name.endswith("/p9uint"):
+                    vals = np.array(U64VALS, dtype=np.uint64)
                 attrs = dict(ds.attrs)
-                vdt = VSTR if ds.dtype.kind == "O" else ds.dtype
+                vdt = VSTR if ds.dtype.kind == "O" else (np.dtype("uint64") if name.endswith("/p9uint") else ds.dtype)
                 cdt = np.dtype([("value", vdt), ("uncertainty", "f8"), ("reference", VSTR), ("filename", VSTR),
                                 ("encoder", VSTR), ("checksum", VSTR)])
                 arr = np.zeros(len(vals), dtype=cdt)
